@@ -45,6 +45,22 @@ def gen(seed, tier):
 
         # an objective that returns Python ints for some points and floats for others
         pl["objective"] = _o.gen_objective(_r.Random(seed), pl["dim"], pl["box"], pl["maximize"], ["clipint"])
+    if "levels" in pl and seed % 10 == 6 and len(pl["levels"]) >= 2 and not pl.get("inf_objective"):
+        # the run ends by reaching a target precision, typically inside the initial population of a fresh child
+        from .. import objectives as _o
+        import random as _r
+
+        r = _r.Random(seed ^ 0xC04)
+        minr = min(h - l for l, h in pl["box"])
+        cen = [l + (h - l) * r.choice([0.3, 0.5, 0.7]) for l, h in pl["box"]]
+        pl["objective"] = {"kind": "sphere", "center": cen, "scale": 1.0, "offset": r.choice([0.0, 1.5, -3.0]),
+                           "sign": -1.0 if pl["maximize"] else 1.0}
+        pl.pop("stack_objectives", None)
+        opt = _o.known_optimum_value(pl["objective"])
+        pl["stacks"] = [{"layers": [{"kind": "precision", "opt": opt, "eps": r.choice([0.003, 0.01, 0.05]) * minr * minr}]}]
+        pl["level_stack"] = [0] * len(pl["levels"])
+        pl["gsc"] = {"kind": "precision", "stack": 0}
+        pl["faults"] = {k: v for k, v in pl.get("faults", {}).items() if k != "stop_at_consult"}
     if "stacks" in pl and seed % 9 == 0:
         # evaluation caches on; an earlier tree of this process ran the same seeds on another objective
         import copy as _c
